@@ -992,30 +992,16 @@ def remove_dtype_byteorder(dtype):
 def to_native(array):
     """
     Return the array itself if it is already in native byte order, otherwise
-    a byte swapped copy with native dtype.  The input is never modified.
+    a converted copy with native dtype.  The input is never modified.
+
+    The fields of a structured array can have different byte orders; each
+    field is converted on its own.
     """
-    if numpy.little_endian:
-        machine_little = True
-    else:
-        machine_little = False
+    native_dtype = array.dtype.newbyteorder("=")
+    if native_dtype == array.dtype:
+        return array
 
-    data_little = False
-    if array.dtype.names is None:
-        data_little = is_little_endian(array.dtype)
-    else:
-        # assume all are same byte order: we only need to find one with
-        # little endian
-        for fname in array.dtype.names:
-            if is_little_endian(array[fname].dtype):
-                data_little = True
-                break
-
-    if (machine_little and not data_little) or (not machine_little and data_little):  # noqa
-        outdata = array.byteswap(False)
-        outdata.dtype = outdata.dtype.newbyteorder()
-        return outdata
-
-    return array
+    return array.astype(native_dtype)
 
 
 def to_native_inplace(array):
